@@ -10,6 +10,47 @@ class WorldRun:
     pass
 
 
+# Options that none of the properties quantifies over and that must not change
+# what a check observes: a quarter of all world runs get one to three of them
+# (chosen from a hash of the case, so a replay draws the same ones).  They
+# reach option parsing, the defaults/command-line merge, the arguments handed
+# to layer subprocesses and the formatter selection.
+NEUTRAL = ['--exit-with-status', '-1', '--show-secondary-failures',
+           '--slow-test=1000', '--udiff', '--ndiff', '--cdiff',
+           '--ignore_dir=zz_no_such_dir', '--suite-name=test_suite',
+           '--keepbytecode', '--auto-color', '--no-color', '--auto-progress',
+           '--no-progress', '--require-unique']
+
+
+def neutral_words(spec, opts, argv, root=''):
+    if os.environ.get('ZTR_NO_NEUTRAL'):
+        return []
+    import random
+    import zlib
+    rng = random.Random(zlib.crc32(json.dumps(
+        [spec.get('prefix'), [str(a).replace(root, '<root>') for a in argv[2:]]],
+        sort_keys=True, default=str).encode()))
+    if rng.random() >= 0.25:
+        return []
+    pool = list(NEUTRAL)
+    words = ' '.join(argv)
+    if (opts or {}).get('color') or '--color' in words or ' -c' in words:
+        pool = [w for w in pool if 'color' not in w]
+    if (opts or {}).get('progress') or '--progress' in words or \
+            ' -p' in words:
+        pool = [w for w in pool if 'progress' not in w]
+    tids = [t[0] for t in vworld.iter_tests(spec)]
+    if (len(set(tids)) != len(tids) or (opts or {}).get('module') or
+            '-m' in argv or spec.get('no_require_unique') or
+            any(True for _ in vworld.iter_units(spec))):
+        pool.remove('--require-unique')
+    out = rng.sample(pool, rng.randint(1, 3))
+    diffs = [w for w in out if w in ('--udiff', '--ndiff', '--cdiff')]
+    for w in diffs[1:]:
+        out.remove(w)       # "Can only give one of --ndiff, --udiff, --cdiff"
+    return out
+
+
 def run_world(spec, plan=None, opts=None, extra_argv=(), mode='in',
               env_extra=None, timeout=120, keep=False, python=None,
               markers=False, path_opt='--path', pre=None, post=None,
@@ -32,6 +73,8 @@ def run_world(spec, plan=None, opts=None, extra_argv=(), mode='in',
         trace = os.path.join(root, 'trace-%d.jsonl' % len(os.listdir(root)))
         defaults, oargv = vworld.opts_split(opts or {})
         argv = [path_opt, root] + oargv + list(extra_argv)
+        w.neutral = neutral_words(spec, opts, argv, root)
+        argv += w.neutral
         mdir = None
         if markers:
             mdir = os.path.join(root, 'markers-%d' % len(os.listdir(root)))
